@@ -31,7 +31,7 @@ ASSUMPTIONS = [
 ]
 FLOORS = {
     'quick': {'programs': 6000, 'both_accepted': 12000, 'setting:ignorecase': 1200, 'setting:nameguard_off': 1200,
-              'setting:whitespace': 1200, 'setting:parseinfo': 1200, 'sem:tagging': 2000, 'sem:identity': 2000,
+              'setting:whitespace': 1200, 'setting:parseinfo': 1200, 'sem:tagging': 2000, 'sem:identity': 2000, 'sem:tagging+params': 2000,
               'kwlike_names': 400, 'pyconst_tokens': 400, 'long_names': 600, 'includes_or_based_rules': 500, 'reused_instance_parses': 20000, 'with_params': 400, 'with_directives': 1200, 'assoc_joins': 150, 'underscored_names': 400},
     'thorough': {'programs': 100000, 'both_accepted': 200000},
 }
@@ -118,7 +118,7 @@ def gen_case(rng):
         features.add('underscored_names')
     if rng.random() < 0.2:
         r = rng.choice(g.rules)
-        r.params = tuple(rng.sample(['A', 'b', 1], rng.choice([1, 2])))
+        r.params = tuple(rng.sample(['A', 'b', 1, 'Ty::Base', 'N::M::K'], rng.choice([1, 2])))
         if rng.random() < 0.5:
             r.kwparams = (('k', rng.choice([1, 'v'])),)
         features.add('with_params')
@@ -198,7 +198,7 @@ SETTINGS = [
     ('whitespace', {'whitespace': r'[ ,]+'}),
     ('parseinfo', {'parseinfo': True}),
 ]
-SEMS = ['none', 'identity', 'tagging']
+SEMS = ['none', 'identity', 'tagging', 'tagging+params']
 
 
 def outcome(parse, text, settings, semname):
